@@ -405,6 +405,29 @@ def check_function_tasks(ctx):
                           '%s: %r != %r' % (trig, got, expect), replay)
         ctx.outcome(('func', repr(got)))
 
+        # decoding is a pure function of the payload: what a consumer does to
+        # the decoded arguments (the raptor worker injects a communicator into
+        # them) must not show in a later decode of the same payload
+        try:
+            if isinstance(a, list):
+                a.append('poison')
+                if a and a[0] is None:
+                    a[0] = 'comm'
+            if isinstance(k, dict):
+                k['poison'] = True
+            g2, a2, k2 = PythonTask.get_func_attr(blob)
+            got2 = _call(g2, a2, k2)
+            if got2 != expect:
+                ctx.violation('decode-not-independent|PythonTask.get_func_attr|'
+                              '%s' % via,
+                              '%s: second decode of the same payload gives '
+                              'f(*%r, **%r) = %r, expected %r'
+                              % (trig, a2, k2, got2, expect), replay)
+        except Exception as e:
+            ctx.violation('decode-not-independent|PythonTask.get_func_attr|%s'
+                          % via, '%s: second decode raised %r' % (trig, e),
+                          replay)
+
     # plain object serialisers
     import os
     objs = [0, 'a b', [1, {'k': (2, 3)}], {'x': None}, b'\x00\xff',
